@@ -116,7 +116,7 @@ def lines_privenc(rng, n):
 def run(chk, model_ok=True):
     rng = random.Random(chk.seed)
     quick = chk.tier == "quick"
-    n = 4000 if quick else 80000
+    n = 12000 if quick else 160000
     st = streams.Streams(chk, model_ok)
     st.add("corpus", streams.corpus_lines("C17"))
     st.add("buf", gens.lines_buf(rng, n))
@@ -201,7 +201,7 @@ def run(chk, model_ok=True):
     env = e2e.env()
     peers = sessions.default_peers()
     n_e2e = 0
-    for h in range(25 if quick else 600):
+    for h in range(75 if quick else 1200):
         for s in sessions.run_history(env, rng, peers, rng.randrange(1, 4), rng.randrange(6, 30), oversize_bias=0.3):
             seen_bt = None
             for rec in s.records:
